@@ -30,8 +30,8 @@ LEVEL_TEXT = ('Binding lemma: for each signature shape (hidden parameters in '
 LEVEL_NOTE = ('Shape family is finite (7 signatures x 15 call shapes); '
               'within a shape everything is symbolic. The convention '
               'translation itself (regex sub) and inspect.getfullargspec '
-              'are trusted; grammar rules for empty slots are covered by '
-              'C02/C03 contracts on p_arg_list.')
+              'are trusted; the argument-list grammar itself (ply LALR) is '
+              'covered by the BOUNDED language comparison.')
 
 
 def alias_unit(ctx):
@@ -135,4 +135,18 @@ def units(ctx):
            for c in runner.translate_contracts()]
     us += [contract_unit(c, world_setup=runner.setup_call)
            for c in runner.call_contracts()]
+    # empty slots / keyword arguments at the grammar level: the semantic
+    # actions of the argument-list productions (contracts), and - the LALR
+    # construction being outside the verifier's reach - a BOUNDED comparison
+    # of the language the real parser accepts with the reference language
+    from contracts import lexer
+    from props._common import bounded_unit
+    us += [contract_unit(c, world_setup=lexer.setup)
+           for c in lexer.contracts() if 'p_arg' in c.short
+           or 'p_incomplete' in c.short or 'p_named' in c.short]
+    us.append(bounded_unit(
+        'bounded:c12-arglists', 'c12_arglists.py',
+        'BOUNDED: every token string over {value, comma, named argument} of '
+        'length <= 8 inside f(...): accepted iff in the reference language, '
+        'with the reference slot list'))
     return us
